@@ -208,7 +208,7 @@ def run(chk, tier, replay=None):
     quick = tier == "quick"
     scale = getattr(chk, "scale", 1)
     n_plain = max(10, int((200 if quick else 20000) * scale))
-    n_asan = max(5, int((40 if quick else 1500) * scale))
+    n_asan = max(5, int((30 if quick else 1500) * scale))
     inc, summary = generate()
     flavours = [("plain", "plain", n_plain, False), ("asan", "asan-exact", n_asan, True)]
     if not quick and build.has_avx512():
@@ -242,7 +242,8 @@ def run(chk, tier, replay=None):
     uncovered = {}
     for e in with_simd:
         if e["ptr"] not in covered:
-            uncovered[e["ptr"]] = state["uncovered"].get(e["ptr"], "no-handler" if not e["handler"] else "not-run")
+            uncovered[e["ptr"]] = state["uncovered"].get(
+                e["ptr"], "no-c-reference" if not e["c"] else "no-handler" if not e["handler"] else "not-run")
     per_isa = {}
     pairs = set()
     for p, kv in state["kernels"].items():
@@ -281,5 +282,28 @@ def run(chk, tier, replay=None):
 ASSUMPTIONS = [
     "sample domains: 8-bit 0..255, 10-bit 0..1023 (the encoder supports 8/10 bit only); 12-bit is not exercised",
     "argument domains are those of the C reference's asserts, the unit tests under test/*.cc and the encoder's call "
-    "sites; tuples outside them are not generated",
+    "sites (block / transform sizes of AV1, strides >= width, documented alignments); tuples outside them are not "
+    "generated; each handler states its domain in a comment in harness/kdiff_*.c",
+    "inputs that live in padded pictures or fixed-size scratch arrays in the encoder (reference pictures, SB buffers, "
+    "intra edge arrays, CONV_BUF, wedge/obmc masks) are given that much readable padding (32..128 bytes, two extra rows "
+    "for reference blocks) also in the exact-size ASan run; the padding content differs between the C run and the SIMD "
+    "run, so results must not depend on it",
+    "output regions a kernel leaves unspecified are excluded from the comparison: N2/N4 forward transforms outside the "
+    "top-left quarter/sixteenth (buffer starts zeroed as in the unit test), intra edge filter/upsample scratch elements "
+    "inside the edge array, TX_PAD_END bytes of txb_init_levels, self-guided filter columns between width and the next "
+    "multiple of 8/16, flt planes of a zero radius, scratch buffers (tmpbuf, local_cache)",
+    "transform types per size follow the AV1 ext-tx sets (64: DCT only, 32: DCT/IDTX, <=16: all); inverse-transform "
+    "input = forward transform of a residual, re-quantised, zero beyond eob; flat residuals above half amplitude are "
+    "not combined with ADST-type transforms (their inverse exceeds the 8+bd-bit intermediate range the AV1 spec "
+    "requires, where the 16-bit SSSE3/AVX2 lowbd kernels saturate and differ from C by 1 LSB)",
+    "convolve: x/y/2d/copy kernels are called with the sub-pel pattern that selects them; BILINEAR only for both "
+    "directions; compound+BILINEAR (decoder-only) and subx!=suby blends (4:2:2) are separate tagged sub-domains",
+    "quantised levels of txb_init_levels within +-32767; svt_av1_block_error / full_distortion_kernel32 inputs differ "
+    "by at most ~one quantiser step (larger errors form the tagged sub-domain error-beyond-quant-step)",
+    "svt_sad_loop_kernel cases in which every candidate SAD exceeds 65535 form the tagged sub-domain "
+    "all-sads-above-65535 (16-bit saturating accumulators of the SIMD versions)",
+    "float kernels (FFT): -0.0 and +0.0 are treated as equal",
+    "kernels without generator are listed under `uncovered` (warp affine, temporal filter, k-means, wiener stats, "
+    "pixel-proj error, scaled convolve8, cdef search_one_dual, upsampled_pred, svt_cdef_filter_block_8x8_16 which has "
+    "no C reference)",
 ]
